@@ -279,8 +279,17 @@ def r18_4(ctx):
         ctx.check(len(init) >= 1, "init-test-file:" + cmd, run.where(), "`scrut %s` initialises a per-document work directory" % cmd)
 
 
+def r18_5(ctx):
+    from . import c12, c14
+    c12.r12_1(ctx)
+    c12.r12_2(ctx)
+    # a timed-out child must be killed, otherwise its EXIT trap re-creates the state directory after clean-up
+    c14.r14_8(ctx)
+
+
 def run(ctx):
     ctx.run_rule("R18.1", "ownership: every directory/file creating call yields an owned TempDir (Ephemeral / live local), a path beneath one, or is leaked only under keep_temporary_directories [E-SITE]", r18_1, floor=11)
     ctx.run_rule("R18.2", "leak APIs only on the keep edge; no process::exit/abort; no panic=abort; main returns ExitCode [E-SITE]", r18_2, floor=5)
     ctx.run_rule("R18.3", "who-may-remove: no fs::remove_* in non-test code [E-SITE]", r18_3, floor=1)
+    ctx.run_rule("R18.5", "the bash state file is written inside the owned per-document TempDir: the TempDir path reaches the template unmodified, in a double-quoted position (shared with C12 R12.1/R12.2) [E-FLOW]", r18_5, floor=8)
     ctx.run_rule("R18.4", "environment table: documented variables == variables set (Cram extras on the cram_compat edge); SHELL, SCRUT_TEST=<file>:<line> per test case; applied in test/update/create [E-TABLE]", r18_4, floor=12)
